@@ -202,14 +202,19 @@ func runWire(t *testing.T, w *wireCase, max int32) (r wireResult) {
 			var req bytes.Buffer
 			e := &altEnc{}
 			var body bytes.Buffer
+			// the request carries the case's tag map (when it has one): a RESPONSE never does, tagged request or not
+			extra := byte(0)
+			if len(w.tags) > 0 {
+				extra = 1
+			}
 			if w.ctype == 0 {
-				body.WriteByte(0x94)
+				body.WriteByte(0x94 + extra)
 				e.intv(&body, 0)
 				e.intv(&body, int64(w.seq))
 				e.str(&body, []byte(w.method))
 				e.value(&body, nil)
 			} else {
-				body.WriteByte(0x95)
+				body.WriteByte(0x95 + extra)
 				e.intv(&body, 4)
 				e.intv(&body, int64(w.seq))
 				e.intv(&body, int64(w.ctype))
@@ -219,6 +224,9 @@ func runWire(t *testing.T, w *wireCase, max int32) (r wireResult) {
 				} else {
 					e.value(&body, nil)
 				}
+			}
+			if extra == 1 {
+				body.Write(codecEncode(map[string]interface{}(w.tags)))
 			}
 			e.intv(&req, int64(body.Len()))
 			req.Write(body.Bytes())
